@@ -6,7 +6,9 @@
   are the translations of `_fix`/`_set_months` made on this run; `dtm = dt2 + self` is the C03 model
   `applyTo`.  Domain: `a.Valid`, `b.Valid` (any date / naive / aware datetime of years 1..9999, a
   date has no time of day) and `RDP.Compatible a b` (after the date→datetime coercion: both dates,
-  both naive, or both aware with the same zone tag — anything else is a TypeError in code and model).
+  both naive, or both aware with the SAME tzinfo object (zone id and object id equal) — naive vs aware is a
+  TypeError in code and model; two aware operands with distinct tzinfo objects are modelled too (UTC
+  comparison through `off`), see the last section).
 
   "dt2 + relativedelta(dt1, dt2) equals dt1 exactly" is proved as: the sum has exactly dt1's fields,
   and is *equal to dt1 as an object* whenever both operands have the same kind (both dates, both
@@ -21,11 +23,11 @@ open RDM RDP
 /-- **diff_loop_terminates.** For every valid comparable pair the overshoot loop needs at most ONE
     iteration: with fuel 1 the constructor already returns a value, and every larger fuel returns
     the same value (so `diff = diffN 2` never runs out of fuel and termination is a theorem). -/
-theorem diff_loop_terminates (a b : Temporal) (ha : a.Valid) (hb : b.Valid) (hc : Compatible a b) :
-    ∃ r, diffN 1 a b = some (.ok r) ∧ ∀ n, diffN (n + 1) a b = some (.ok r) := by
-  obtain ⟨k, hk, _, hord⟩ := diff_main 0 a b ha hb hc
+theorem diff_loop_terminates (off : Nat → DT → Int) (a b : Temporal) (ha : a.Valid) (hb : b.Valid) (hc : Compatible a b) :
+    ∃ r, diffN off 1 a b = some (.ok r) ∧ ∀ n, diffN off (n + 1) a b = some (.ok r) := by
+  obtain ⟨k, hk, _, hord⟩ := diff_main off 0 a b ha hb hc
   refine ⟨_, hk, fun n => ?_⟩
-  obtain ⟨k', hk', _, hord'⟩ := diff_main n a b ha hb hc
+  obtain ⟨k', hk', _, hord'⟩ := diff_main off n a b ha hb hc
   have v := validNoYear_of_valid _ hb.1
   -- the month count is determined by the ordering facts: both k and k' are "the largest shift"
   have hkk : k' = k := by
@@ -57,10 +59,10 @@ theorem diff_loop_terminates (a b : Temporal) (ha : a.Valid) (hb : b.Valid) (hc 
 
 /-- **diff_inverse.** `b + relativedelta(a, b)` has exactly `a`'s fields, for every valid comparable pair
     in either order; it IS `a` (same kind, same zone tag) whenever the operands are of one kind. -/
-theorem diff_inverse (a b : Temporal) (ha : a.Valid) (hb : b.Valid) (hc : Compatible a b) :
-    ∃ r res, diff a b = some (.ok r) ∧ applyTo r b = .ok res ∧ res.t = a.t ∧
+theorem diff_inverse (off : Nat → DT → Int) (a b : Temporal) (ha : a.Valid) (hb : b.Valid) (hc : Compatible a b) :
+    ∃ r res, diff off a b = some (.ok r) ∧ applyTo r b = .ok res ∧ res.t = a.t ∧
       (a.kind = b.kind → res = a) := by
-  obtain ⟨k, hk, hv, _⟩ := diff_main 1 a b ha hb hc
+  obtain ⟨k, hk, hv, _⟩ := diff_main off 1 a b ha hb hc
   have happ := diffValue_apply a b k ha hb hv
   refine ⟨_, _, hk, happ, rfl, ?_⟩
   intro hkind
@@ -72,7 +74,7 @@ theorem diff_inverse (a b : Temporal) (ha : a.Valid) (hb : b.Valid) (hc : Compat
     rw [← hkind]
 
 /-- **diff_only_relative.** The result carries no absolute field, no weekday and no leapdays. -/
-theorem diff_only_relative (n : Nat) (a b : Temporal) (r : RD) (h : diffN n a b = some (.ok r)) :
+theorem diff_only_relative (off : Nat → DT → Int) (n : Nat) (a b : Temporal) (r : RD) (h : diffN off n a b = some (.ok r)) :
     r.year = none ∧ r.month = none ∧ r.day = none ∧ r.weekday = none ∧ r.hour = none ∧
     r.minute = none ∧ r.second = none ∧ r.microsecond = none ∧ r.leapdays = 0 := by
   unfold diffN at h
@@ -90,7 +92,7 @@ theorem diff_only_relative (n : Nat) (a b : Temporal) (r : RD) (h : diffN n a b 
 
 /-- **diff_normalised.** Whatever is returned is in normal form: |months| ≤ 11, |hours| ≤ 23,
     |minutes| ≤ 59, |seconds| ≤ 59, |microseconds| ≤ 999999 (and `_has_time` consistent). -/
-theorem diff_normalised (n : Nat) (a b : Temporal) (r : RD) (h : diffN n a b = some (.ok r)) :
+theorem diff_normalised (off : Nat → DT → Int) (n : Nat) (a b : Temporal) (r : RD) (h : diffN off n a b = some (.ok r)) :
     Normalised r := by
   unfold diffN at h
   simp only [] at h
@@ -108,15 +110,15 @@ theorem diff_normalised (n : Nat) (a b : Temporal) (r : RD) (h : diffN n a b = s
 /-- **diff_largest_shift.** With `M = 12·years + months` of the result: for `a ≥ b`, `M ≥ 0` and
     `shift b M ≤ a < shift b (M+1)`; for `a < b`, `M ≤ 0` and `shift b (M−1) < a ≤ shift b M`
     (`shift` = the documented clipped month shift, instants compared in µs). -/
-theorem diff_largest_shift (a b : Temporal) (ha : a.Valid) (hb : b.Valid) (hc : Compatible a b) :
-    ∃ r, diff a b = some (.ok r) ∧
+theorem diff_largest_shift (off : Nat → DT → Int) (a b : Temporal) (ha : a.Valid) (hb : b.Valid) (hc : Compatible a b) :
+    ∃ r, diff off a b = some (.ok r) ∧
       ((¬ a.t.toMicros < b.t.toMicros ∧ 0 ≤ monthTotal r ∧
           (shiftDT b.t (monthTotal r)).toMicros ≤ a.t.toMicros ∧
           a.t.toMicros < (shiftDT b.t (monthTotal r + 1)).toMicros) ∨
        (a.t.toMicros < b.t.toMicros ∧ monthTotal r ≤ 0 ∧
           a.t.toMicros ≤ (shiftDT b.t (monthTotal r)).toMicros ∧
           (shiftDT b.t (monthTotal r - 1)).toMicros < a.t.toMicros)) := by
-  obtain ⟨k, hk, _, hord⟩ := diff_main 1 a b ha hb hc
+  obtain ⟨k, hk, _, hord⟩ := diff_main off 1 a b ha hb hc
   refine ⟨_, hk, ?_⟩
   have hm : monthTotal (diffValue a b k) = k := by
     have := (diffValue_fields a b k).2.2.2.2.2.2.2.2.2.2.1
@@ -124,9 +126,9 @@ theorem diff_largest_shift (a b : Temporal) (ha : a.Valid) (hb : b.Valid) (hc : 
   rw [hm]; exact hord
 
 /-- **diff_self_empty.** `relativedelta(x, x)` has every field 0 / None, i.e. `bool` is False. -/
-theorem diff_self_empty (x : Temporal) (hx : x.Valid) (hc : Compatible x x) :
-    ∃ r, diff x x = some (.ok r) ∧ RDM.bool r = false := by
-  obtain ⟨k, hk, hv, hord⟩ := diff_main 1 x x hx hx hc
+theorem diff_self_empty (off : Nat → DT → Int) (x : Temporal) (hx : x.Valid) (hc : Compatible x x) :
+    ∃ r, diff off x x = some (.ok r) ∧ RDM.bool r = false := by
+  obtain ⟨k, hk, hv, hord⟩ := diff_main off 1 x x hx hx hc
   refine ⟨_, hk, ?_⟩
   have v := validNoYear_of_valid _ hx.1
   have hk0 : k = 0 := by
@@ -150,14 +152,63 @@ theorem diff_self_empty (x : Temporal) (hx : x.Valid) (hc : Compatible x x) :
   rw [z1, z2, z3, z4, z5, z6, z7, f1, f2, f3, f4, f5, f6, f7, f8, f9]
   rfl
 
+/-! ## aware operands held by two distinct tzinfo objects
+
+CPython compares and subtracts two aware datetimes on the wall clock only when their tzinfo is the SAME
+OBJECT; for two objects (even of one zone: two `tz.tzlocal()`, two `tz.tzfile(path)`) it works in UTC,
+while `dt2 + delta` is always wall-clock arithmetic.  `diffN` mirrors that (`comparable`, `cmpKey`,
+`off z wall` = the zone's utcoffset).  FULL STATEMENT for "aware datetimes of a common zone":
+`diff_inverse` without the same-object hypothesis — it is FALSE (known finding
+D-C09-distinct-tzinfo-objects, `diff_inverse_distinct_objects_counterexample`); what holds is the
+partial theorem below, whose hypothesis excludes exactly the offset changing over the span. -/
+
+/-- **diff_inverse_distinct_objects_partial.** Two aware operands with DISTINCT tzinfo objects: if the
+    utcoffset at `a` equals the utcoffset at every whole-month shift of `b`'s wall time (in particular at
+    `b` itself — "the offset is constant over the span"), the constructor computes exactly what it
+    computes for one shared object, and `b + relativedelta(a, b)` has `a`'s fields (in `b`'s tzinfo). -/
+theorem diff_inverse_distinct_objects_partial (off : Nat → DT → Int) (a b : Temporal)
+    (ha : a.Valid) (hb : b.Valid) (z1 o1 z2 o2 : Nat)
+    (hka : a.kind = .aware z1 o1) (hkb : b.kind = .aware z2 o2) (hne : ¬ (z1 = z2 ∧ o1 = o2))
+    (c : Int) (hca : off z1 a.t = c) (hcb : ∀ k, off z2 (shiftDT b.t k) = c) :
+    ∃ r res, diff off a b = some (.ok r) ∧ applyTo r b = .ok res ∧ res.t = a.t ∧ res.kind = b.kind ∧
+      diff off a b = diff off { a with kind := b.kind } b := by
+  have hd := diff_main_distinct off 1 a b hb z1 o1 z2 o2 hka hkb hne c hca hcb
+  have ha' : ({ a with kind := b.kind } : Temporal).Valid := by
+    refine ⟨ha.1, ?_⟩
+    intro h; simp only [hkb] at h; cases h
+  have hc' : Compatible { a with kind := b.kind } b := by
+    unfold Compatible coerce comparable; simp [hkb]
+  obtain ⟨r, res, h1, h2, h3, h4⟩ := diff_inverse off { a with kind := b.kind } b ha' hb hc'
+  have hres := h4 rfl
+  refine ⟨r, res, ?_, h2, h3, by rw [hres], hd⟩
+  unfold diff at h1 ⊢
+  rw [hd]; exact h1
+
+/-- a zone with one transition (New York, 8 March 2020: −5 h before 02:00 wall time, −4 h after), in µs -/
+def nyOff : Nat → DT → Int := fun _ t =>
+  if t.toMicros < ({ y := 2020, m := 3, d := 8, hh := 2 } : DT).toMicros then -18000000000 else -14400000000
+
+/-- **diff_inverse_distinct_objects_counterexample (D-C09-distinct-tzinfo-objects).** Across the change of
+    offset the inverse law fails for two tzinfo objects of the same zone: noon 7 March → noon 8 March is
+    `hours=+23` (UTC difference), and adding 23 wall-clock hours to noon 7 March gives 11:00, not 12:00.
+    With one shared object the same pair gives `days=+1` and the law holds. -/
+theorem diff_inverse_distinct_objects_counterexample :
+    diff nyOff ⟨.aware 0 1, { y := 2020, m := 3, d := 8, hh := 12 }⟩ ⟨.aware 0 2, { y := 2020, m := 3, d := 7, hh := 12 }⟩
+      = some (.ok { hours := 23, hasTime := 1 }) ∧
+    applyTo { hours := 23, hasTime := 1 } ⟨.aware 0 2, { y := 2020, m := 3, d := 7, hh := 12 }⟩
+      = .ok ⟨.aware 0 2, { y := 2020, m := 3, d := 8, hh := 11 }⟩ ∧
+    diff nyOff ⟨.aware 0 1, { y := 2020, m := 3, d := 8, hh := 12 }⟩ ⟨.aware 0 1, { y := 2020, m := 3, d := 7, hh := 12 }⟩
+      = some (.ok { days := 1 }) := by
+  decide +kernel
+
 -- non-vacuity / sanity
-example : diff ⟨.date, { y := 2024, m := 3, d := 31 }⟩ ⟨.date, { y := 2024, m := 2, d := 29 }⟩
+example : diff (fun _ _ => 0) ⟨.date, { y := 2024, m := 3, d := 31 }⟩ ⟨.date, { y := 2024, m := 2, d := 29 }⟩
     = some (.ok { months := 1, days := 2 }) := by decide +kernel
 example : Compatible ⟨.date, { y := 2024, m := 3, d := 31 }⟩ ⟨.naive, { y := 2024, m := 2, d := 29, hh := 7 }⟩ := by
   unfold Compatible; decide
-example : diff ⟨.naive, { y := 2023, m := 1, d := 31 }⟩ ⟨.naive, { y := 2024, m := 3, d := 30, hh := 1 }⟩
+example : diff (fun _ _ => 0) ⟨.naive, { y := 2023, m := 1, d := 31 }⟩ ⟨.naive, { y := 2024, m := 3, d := 30, hh := 1 }⟩
     = some (.ok { years := -1, months := -1, days := -28, hours := -1, hasTime := 1 }) := by decide +kernel
-example : diff ⟨.naive, { y := 2023, m := 1, d := 31 }⟩ ⟨.aware 0, { y := 2024, m := 3, d := 30 }⟩
+example : diff (fun _ _ => 0) ⟨.naive, { y := 2023, m := 1, d := 31 }⟩ ⟨.aware 0 0, { y := 2024, m := 3, d := 30 }⟩
     = some (.error .TypeError) := by decide +kernel
 
 end C09
